@@ -28,7 +28,10 @@ JOBS = [
 ] + [
     dict(name='c09_snappy_compress_' + nm, props=['C09', 'C10'], entry='h_c09_compress', enforce='carquet_snappy_compress',
          replace=['carquet_snappy_compress_bound', 'snappy_write_varint', 'snappy_emit_literal', 'snappy_emit_copy'],
-         select=sel, min_loop_obligations=mlo, est_s=600, timeout=3000, mem_gb=mem, tier='thorough',
+         select=sel, min_loop_obligations=mlo, est_s=600, timeout=3000, mem_gb=mem,
+         # the contract slice (ensures, in-function assertions, callee preconditions: e.g. every emitted copy has an
+         # offset the format can hold) runs on every change; the other four slices are thorough-tier
+         tier='quick' if nm == 'contract' else 'thorough',
          backend=['cadical', 'sat'], cbmc_flags=['--arrays-uf-always'], wip=False,
          replayer=dict(kind='fuzz', harness='replay/fz/snappy_compress.c', sources=['src/compression/snappy.c'], max_len=64, secs=20),
          defines=['CQV_OWN_MEM=1'], extra_sources=[], trusted=[OWNMEM], **SC9)
